@@ -66,6 +66,9 @@ def check_listing(rng, V, n_files, hist):
         p = subprocess.run([C.HYEONG, "--color", "never", "check", path], stdout=subprocess.PIPE, stderr=subprocess.PIPE, timeout=60)
         out = p.stdout.decode("utf-8", "replace").split("\n")
         lib = C.run_impl([P.wire(text)])[0]
+        if lib == "panic" or lib.startswith("died"):
+            V.violation("listing:panic", "rendering the commands of %r panics" % text, dict(file_text=text, parsed=lib))
+            continue
         want = []
         for c in (lib.split("|") if lib else []):
             f = c.split(",")
